@@ -283,6 +283,7 @@ impl<D: Decode> NodeLabels<D> {
     /// Gets the successors of the next node in the stream.
     pub fn next_successors(&mut self) -> Result<&[usize]> {
         let mut res = self.backrefs.take(self.current_node);
+        res.clear();
         self.get_successors_iter_priv(self.current_node, &mut res)?;
         let res = self.backrefs.replace(self.current_node, res);
         self.current_node += 1;
